@@ -4811,7 +4811,6 @@ where
         let k = token_value_into_cbor_value(value.clone());
         let entries = o.clone();
 
-        #[cfg(feature = "ast-span")]
         if let Some((entry_index, _, v)) =
           self.find_single_map_entry_matching(&entries, |candidate| candidate == &k)
         {
@@ -4820,42 +4819,21 @@ where
           let _ = write!(self.state.data_location, "/{}", value);
 
           None
-        } else if let Some(Occur::Optional { .. }) | Some(Occur::ZeroOrMore { .. }) =
-          &self.state.occurrence.take()
-        {
-          self.state.advance_to_next_entry = true;
-          None
-        } else if let Some(Occur::Exact {
-          lower: None,
-          upper: None,
-          ..
-        }) = &self.state.occurrence.take()
-        {
-          // Handle Exact { lower: None, upper: None } as zero-or-more (for backward compatibility)
+        } else if matches!(
+          self.state.occurrence.take(),
+          // every occurrence whose lower bound is zero permits the member to
+          // be absent: `?`, `*`, `*n`, `0*n`
+          Some(Occur::Optional { .. })
+            | Some(Occur::ZeroOrMore { .. })
+            | Some(Occur::Exact {
+              lower: None | Some(0),
+              ..
+            })
+        ) {
           self.state.advance_to_next_entry = true;
           None
         } else if let Some(ControlOperator::NE) | Some(ControlOperator::DEFAULT) = &self.state.ctrl
         {
-          None
-        } else {
-          Some(format!("object missing key: {}", value))
-        }
-
-        #[cfg(not(feature = "ast-span"))]
-        if let Some((entry_index, _, v)) =
-          self.find_single_map_entry_matching(&entries, |candidate| candidate == &k)
-        {
-          self.claim_single_map_key(entry_index);
-          self.object_value = Some(v);
-          self.state.data_location.push_str(&format!("/{}", value));
-
-          None
-        } else if let Some(Occur::Optional {}) | Some(Occur::ZeroOrMore {}) =
-          &self.state.occurrence.take()
-        {
-          self.state.advance_to_next_entry = true;
-          None
-        } else if let Some(Token::NE) | Some(Token::DEFAULT) = &self.state.ctrl {
           None
         } else {
           Some(format!("object missing key: {}", value))
